@@ -73,6 +73,10 @@ def apply_mutations(text, muts):
             t = toks[i]
             k = b % (len(t) + 1)
             toks[i] = t[:k] + ALPHABET[c % len(ALPHABET)] + t[k:]
+        elif op == "truncate":
+            # the text ends here (end of file in the middle of whatever stands there), sometimes right behind a backslash
+            cut = max(1, i)
+            toks = toks[:cut] + (["\\"] if c % 3 == 0 else [])
         elif op == "char-transpose" and len(toks[i]) > 1:
             t = toks[i]
             k = b % (len(t) - 1)
@@ -81,7 +85,7 @@ def apply_mutations(text, muts):
     return "".join(toks)
 
 
-mutation_st = st.tuples(st.sampled_from(["delete", "duplicate", "swap", "replace-own", "replace-vocab", "char-delete", "char-replace", "char-insert", "char-transpose"]),
+mutation_st = st.tuples(st.sampled_from(["delete", "duplicate", "swap", "replace-own", "replace-vocab", "char-delete", "char-replace", "char-insert", "char-transpose", "truncate"]),
                         st.integers(0, 10000), st.integers(0, 10000), st.integers(0, 10000))
 
 
